@@ -420,6 +420,150 @@ def clRun (locking : Bool) (f : Bytes → Bytes) (c : Cl) : List ClAct → Cl
     | some c' => clRun locking f c' as
     | none => clRun locking f c as
 
+/-! ## The client with connection keeping, failures and redial
+(`newConnIfNotExist`, `Send`, `closeSingleUseConn`, `closeConn`: websocket_client.go:70-217, 552-564)
+
+Any number of goroutines call `Send` on one `Client` for one destination.  The client keeps, per
+destination, a lock object (`connectionsLock`, created on first use) and at most one connection
+(`connections`).  A caller fetches the lock object, locks it, takes the connection of the map or
+dials a new one, writes its request, reads one frame, and on its way out — one critical section
+under the client's own mutex — forgets the connection if the request failed (the server closes a
+connection after reporting an error on it), closes it if connections are not kept, and unlocks.
+The server side of a connection answers the oldest unread request with `respond`: a reply, or an
+error report after which it leaves its read loop (`none`; `wsConn` above).
+
+`KVariant` selects the code as it is or two earlier/seeded variants, for the negative results. -/
+
+structure KConn where
+  /-- requests written by the client that the server has not read yet -/
+  up : List Bytes := []
+  /-- frames on their way to the client: `some reply`, or `none` = error close -/
+  down : List (Option Bytes) := []
+  /-- the server has left the read loop of this connection -/
+  dead : Bool := false
+  /-- the client has closed it -/
+  closed : Bool := false
+  deriving Repr, DecidableEq
+
+inductive KPc where
+  | start
+  | ref (l : Nat)          -- holds a reference to lock object `l` (websocket_client.go:87-93)
+  | locked (l : Nat)       -- `connLock.Lock()` returned
+  | dialing (l : Nat)      -- no connection in the map: `d.Dial`
+  | ready (l c : Nat)      -- has connection `c`, nothing written yet
+  | written (l c : Nat)    -- request written, in `conn.ReadMessage`
+  | finished (res : Option Bytes)   -- `Send` returned the reply, or (`none`) an error
+  deriving Repr, DecidableEq
+
+structure KVariant where
+  /-- a failed request makes the client forget the connection (websocket_client.go:187-196) -/
+  dropFailed : Bool
+  /-- `closeConn` leaves the destination's lock object in `connectionsLock` -/
+  lockSurvives : Bool
+  deriving Repr, DecidableEq
+
+/-- the code as it is -/
+def KVariant.fixed : KVariant := ⟨true, true⟩
+
+structure KCl where
+  /-- `NewClientKeep` / `NewClient` -/
+  keep : Bool
+  callers : List (Bytes × KPc)
+  /-- the lock objects ever created for the destination: held? -/
+  locks : List Bool := []
+  /-- `c.connectionsLock[dest]` -/
+  curLock : Option Nat := none
+  /-- the connections ever dialed -/
+  conns : List KConn := []
+  /-- `c.connections[dest]` -/
+  cur : Option Nat := none
+  deriving Repr, DecidableEq
+
+inductive KAct where
+  | caller (i : Nat)
+  | server (c : Nat)     -- the server goroutine of connection `c`
+  deriving Repr, DecidableEq
+
+/-- `conn.Close()` on connection `c` -/
+def closeAt (conns : List KConn) (c : Nat) : List KConn :=
+  match conns[c]? with
+  | some k => conns.set c { k with closed := true }
+  | none => conns
+
+/-- the deferred part of `Send` (websocket_client.go:181-201), caller `i` with request `q` holding
+lock object `l` returns `res` -/
+def KCl.finish (v : KVariant) (y : KCl) (i : Nat) (q : Bytes) (l : Nat) (res : Option Bytes) : KCl :=
+  -- `if failed { if conn, ok := c.connections[dest]; ok { delete; conn.Close() } }`
+  let y1 : KCl :=
+    if res.isNone && v.dropFailed then
+      match y.cur with
+      | some c => { y with cur := none, conns := closeAt y.conns c }
+      | none => y
+    else y
+  -- `closeSingleUseConn` → `closeConn`
+  let y2 : KCl :=
+    if y1.keep then y1 else
+      match y1.cur with
+      | some c => { y1 with cur := none, conns := closeAt y1.conns c,
+                            curLock := if v.lockSurvives then y1.curLock else none }
+      | none => y1
+  -- `connLock.Unlock()`
+  { y2 with locks := y2.locks.set l false, callers := y2.callers.set i (q, .finished res) }
+
+def kStep (v : KVariant) (respond : Bytes → Option Bytes) (y : KCl) : KAct → Option KCl
+  | .server c =>
+    match y.conns[c]? with
+    | none => none
+    | some k =>
+      if k.dead || k.closed then none else
+      match k.up with
+      | [] => none
+      | q :: rest =>
+        let k' : KConn := { k with up := rest, down := k.down ++ [respond q], dead := (respond q).isNone }
+        some { y with conns := y.conns.set c k' }
+  | .caller i =>
+    match y.callers[i]? with
+    | none => none
+    | some (q, .start) =>
+      match y.curLock with
+      | some l => some { y with callers := y.callers.set i (q, .ref l) }
+      | none => some { y with locks := y.locks ++ [false], curLock := some y.locks.length,
+                              callers := y.callers.set i (q, .ref y.locks.length) }
+    | some (q, .ref l) =>
+      if y.locks[l]? = some false then
+        some { y with locks := y.locks.set l true, callers := y.callers.set i (q, .locked l) }
+      else none
+    | some (q, .locked l) =>
+      match y.cur with
+      | some c => some { y with callers := y.callers.set i (q, .ready l c) }
+      | none => some { y with callers := y.callers.set i (q, .dialing l) }
+    | some (q, .dialing l) =>
+      some { y with conns := y.conns ++ [{}], cur := some y.conns.length,
+                    callers := y.callers.set i (q, .ready l y.conns.length) }
+    | some (q, .ready l c) =>
+      match y.conns[c]? with
+      | none => none
+      | some k =>
+        if k.closed then some (KCl.finish v y i q l none)      -- "connection write: …"
+        else some { y with conns := y.conns.set c { k with up := k.up ++ [q] },
+                           callers := y.callers.set i (q, .written l c) }
+    | some (q, .written l c) =>
+      match y.conns[c]? with
+      | none => none
+      | some k =>
+        if k.closed then some (KCl.finish v y i q l none)      -- "connection read: use of closed connection"
+        else match k.down with
+          | r :: rest => some (KCl.finish v { y with conns := y.conns.set c { k with down := rest } } i q l r)
+          | [] => if k.dead then some (KCl.finish v y i q l none) else none
+    | some (_, .finished _) => none
+
+def kRun (v : KVariant) (respond : Bytes → Option Bytes) (y : KCl) : List KAct → KCl
+  | [] => y
+  | a :: as =>
+    match kStep v respond y a with
+    | some y' => kRun v respond y' as
+    | none => kRun v respond y as
+
 /-! ## The client: `Client.SendProtobufParallelWithDecoder` (websocket_client.go:339-417)
 
 The request goes to several nodes at once, one routine per node in flight; all routines decode into
@@ -869,7 +1013,11 @@ def step (s : State) (toks : List String) : State × String :=
   | ["ws", _thr, client, path, buf] =>
     match Util.unhex buf with
     | some b =>
-      if client.startsWith "r" then
+      if client.startsWith "x" then
+        -- a client for a service name no service is registered under: the catch-all handler of the
+        -- multiplexer upgrades and closes with 4001 (websocket.go:131-154); no handler is reached
+        (s, "close 4001 noservice")
+      else if client.startsWith "r" then
         -- one connection for all messages of this client: `wsConn` message by message
         if s.closed.contains client then (s, "noreply")
         else
@@ -889,7 +1037,22 @@ def step (s : State) (toks : List String) : State × String :=
     -- `SendProtobufParallelWithDecoder` to `nodes` servers: which node wins depends on the schedule,
     -- that the reply handed back is the one of the node handed back does not (`c14_parallel_pair`)
     match nodes.toNat?, nonce.toInt? with
-    | some n, some _ => (s, if 3 ≤ n ∧ (mode = "overlap" ∨ mode = "plain") then "ok pair" else "bad-op")
+    | some n, some _ =>
+      (s, if 3 ≤ n ∧ (mode = "overlap" ∨ mode = "plain" ∨ mode = "ordered" ∨ mode = "quit") then "ok pair" else "bad-op")
+    | _, _ => (s, "bad-op")
+  | ["all", _thr, _client, n, path, buf] =>
+    -- `Client.SendToAll` (websocket_client.go:508-525): `Send` to each of the n servers in turn; every
+    -- server runs the same service, so each owes what one server owes; the first error text is what
+    -- the caller sees
+    match n.toNat?, Util.unhex buf with
+    | some n, some b =>
+      if n = 0 then (s, "bad-op") else
+      let rec go : Nat → State → String → State × String
+        | 0, st, txt => (st, txt)
+        | k + 1, st, txt =>
+          let r := wsShow st path b
+          go k r.1 (if txt.startsWith "close" then txt else r.2)
+      go n s ""
     | _, _ => (s, "bad-op")
   | ["barrier"] => (s, "ok")
   | ["procs", n] => (s, if n.toNat?.isSome then "ok" else "bad-op")   -- GOMAXPROCS of the server process: no effect
